@@ -362,6 +362,11 @@ CHECKS = {
     technique='runtime monitoring: reference model of the module table; every definition answers with a tag naming its module, so each probe call reveals which definition ran',
     text='Random layouts of 2-4 module files over the names p q r s (random definitions and export lists, imports from earlier modules through use_module/1 or use_module/2 with a selected list, a separate module providing the meta-predicate mcall/1) are loaded on a fresh machine; inside every module every name is called unqualified, through call/1 of a constructed goal, as argument of mcall/1 (must run in the calling module) and inside findall/3; from user, Module:Name is called for names defined there and for names neither defined nor imported; the tag returned must be the module the model resolves to, or an existence error must be raised where the name is not visible.',
     note='Layouts the documentation leaves open (a name imported from two modules, a name both defined and imported) are not generated. Module files are pulled in with use_module(File, [marker/0]) because an empty import list does not load the file.'),
+ 'C46': dict(
+    level='exploration',
+    technique='runtime monitoring: reference model (truth table over all assignments computed by the check) against sat/1, taut/2, sat_count/2 and labeling/1 of library(clpb) on randomly generated formulas',
+    text='Random formulas of depth <= 4 over up to 6 variables and the constants 0 and 1 with every connective of library(clpb) (~ * + # =:= =\\= =< >= < > card/2 with integers and ranges, +(List), *(List)) are evaluated over all assignments by the check; sat/1 must succeed exactly for satisfiable formulas, taut/2 must give 1 / 0 / fail for tautologies / contradictions / other formulas, sat_count/2 must equal the number of models, labeling/1 after sat/1 must enumerate exactly the models, each once; the same after two posted constraints, and taut/2 and sat_count/2 under a posted constraint.',
+    note='Formula size is bounded by depth 4 and 6 variables (the bound the property names); residual constraints printed by the toplevel are not examined.'),
 }
 
 NOT_APPLICABLE_REASON_UNBUILT = ('check designed in DESIGN.md but not built/validated yet in this session; '
